@@ -194,6 +194,7 @@ func writeEvidence(path string, ev *evidence) {
 
 func buildEvidence(id, tier string, seed int, out *sym.RunOutput, validated int, viol, known []sym.Counterexample, inconcl []string) *evidence {
 	states, trans, obl, dis, paths, queries := 0, 0, 0, 0, 0, 0
+	crossOK, crossUnk, crossBad := 0, 0, 0
 	solver := map[string]float64{}
 	fnset := map[string]bool{}
 	var samples []interface{}
@@ -206,6 +207,9 @@ func buildEvidence(id, tier string, seed int, out *sym.RunOutput, validated int,
 		dis += r.Discharged
 		paths += r.Paths
 		queries += r.Queries
+		crossOK += r.CrossChecked
+		crossUnk += r.CrossUnknown
+		crossBad += r.CrossDisagree
 		for k, v := range r.SolverS {
 			solver[k] += v
 		}
@@ -260,6 +264,7 @@ func buildEvidence(id, tier string, seed int, out *sym.RunOutput, validated int,
 		"obligations": obl, "discharged": dis, "paths": paths, "solver_queries": queries, "solver_s": solver,
 		"functions_encoded": fns, "entries": entries, "labels": labels, "known_findings_matched": kn, "violations": vs,
 		"inconclusive": inconcl, "exhaustive": false,
+		"cross_checked_by_second_solver": crossOK, "cross_check_undecided": crossUnk, "cross_check_disagreements": crossBad,
 		"explanation": "states = symbolic states created; transitions = SSA instructions executed symbolically; every obligation is pathcondition ∧ ¬assertion sent to an SMT solver; unsat = holds for every input within the bounds listed per entry",
 	}
 	notes := out.Spec.Notes
